@@ -15,11 +15,32 @@ import (
 // modification sets): the keys a loop body writes are observed in one pass and
 // havocked at the loop head in the next.
 func (vc *FuncVC) generate() {
-	for pass := 0; pass < 6; pass++ {
+	for pass := 0; pass < 10; pass++ {
 		before := len(vc.universe)
 		vc.reset()
 		vc.genOnce()
 		same := len(vc.universe) == before && sameMods(vc.loopMods, vc.loopModsNext)
+		if os.Getenv("GOVC_DEBUG_FIX") != "" {
+			fmt.Fprintf(os.Stderr, "pass %d: universe %d -> %d, mods same=%v\n", pass, before, len(vc.universe), sameMods(vc.loopMods, vc.loopModsNext))
+			for k, m := range vc.loopModsNext {
+				if len(m) != len(vc.loopMods[k]) {
+					fmt.Fprintf(os.Stderr, "   loop %s: %d -> %d keys\n", k, len(vc.loopMods[k]), len(m))
+				}
+			}
+		}
+		// the sets only grow from pass to pass (a key once seen written stays
+		// havocked), so the iteration is monotone and terminates
+		for k, m := range vc.loopMods {
+			n := vc.loopModsNext[k]
+			if n == nil {
+				n = map[string]bool{}
+				vc.loopModsNext[k] = n
+			}
+			for x := range m {
+				n[x] = true
+			}
+		}
+		same = len(vc.universe) == before && sameMods(vc.loopMods, vc.loopModsNext)
 		vc.loopMods = vc.loopModsNext
 		if same {
 			return
@@ -102,6 +123,20 @@ func (vc *FuncVC) genOnce() {
 		vc.assume(S("<", "0", t)) // captured variables are addresses of live cells
 		f.vals[fv] = t
 	}
+	// a call enters with no mutex held by this thread (functions that are called
+	// inside a critical section say so with a `requires held(...)`-style contract)
+	{
+		var ks []string
+		for k := range vc.universe {
+			if strings.HasPrefix(k, "lock:") {
+				ks = append(ks, k)
+			}
+		}
+		sort.Strings(ks)
+		for _, k := range ks {
+			vc.assume(fmt.Sprintf("(forall ((r!l Int)) (! (= (select %s r!l) 0) :pattern ((select %s r!l))))", vc.initial(k), vc.initial(k)))
+		}
+	}
 	// requires
 	f.entry = entry
 	f.cur = entry
@@ -169,6 +204,7 @@ func (vc *FuncVC) genOnce() {
 	rn := resultNames(fn)
 	ensGoals := make([][]string, len(spec.Ensures))
 	frameGoals := map[string][]string{}
+	lockGoals := map[string][]string{}
 	for _, r := range f.rets {
 		r := r
 		f.curReach = r.reach
@@ -203,6 +239,7 @@ func (vc *FuncVC) genOnce() {
 		if spec.HasMod || spec.Pure {
 			f.frameObligations(spec, entry, r.state, r.reach, frameGoals)
 		}
+		f.lockBalance(entry, r.state, r.reach, lockGoals)
 	}
 	f.curReach = "true"
 	if len(spec.Ensures) > 0 && len(f.rets) > 0 {
@@ -231,6 +268,14 @@ func (vc *FuncVC) genOnce() {
 	sort.Strings(fk)
 	for _, k := range fk {
 		f.oblige("frame", "frame:"+k, And(frameGoals[k]...), "modifies clause covers every write to "+k, token.NoPos)
+	}
+	var lk []string
+	for k := range lockGoals {
+		lk = append(lk, k)
+	}
+	sort.Strings(lk)
+	for _, k := range lk {
+		f.oblige("lock", "lock:balanced:"+strings.TrimPrefix(k, "lock:H:"), And(lockGoals[k]...), "every mutex is back in its entry state at return", token.NoPos)
 	}
 }
 
